@@ -114,8 +114,14 @@ def run_engine(ctx, args, name="result", timeout=None, selftest=True):
         if any(d["status"] != "undecided" for d in vac):
             raise CheckError("engine self-validation failed: the vacuous driver was not reported as undecided")
         res["selftest"] = [(d["name"], d["status"]) for d in st]
-    if record and os.path.exists(record):
-        res["solver_diff"] = solver_diff(ctx, record)
+    if record:
+        import glob
+        files = sorted(glob.glob(record + ".*"))
+        diffs = [solver_diff(ctx, f) for f in files]
+        res["solver_diff"] = {"transcripts": len(files), "queries_compared": sum(d.get("queries", 0) for d in diffs),
+                              "skipped": [d["skipped"] for d in diffs if "skipped" in d][:3],
+                              "z3-new": sorted({d.get("z3-new", "-") for d in diffs if "queries" in d and d["queries"]})[:3],
+                              "cvc5": sorted({d.get("cvc5", "-") for d in diffs if "queries" in d and d["queries"]})[:3]}
     return res
 
 
